@@ -4,7 +4,7 @@
    cs over every segmentation. *)
 From Coq Require Import List Arith NArith Bool Lia.
 Import ListNotations.
-Require Import FV.Gen.C07 FV.C07.Model FV.C07.Lemmas FV.C07.Utf8 FV.C07.Wellformed FV.C07.Codec FV.C07.Refuted.
+Require Import FV.Gen.C07 FV.C07.Model FV.C07.Lemmas FV.C07.Utf8 FV.C07.Wellformed FV.C07.Codec FV.C07.Echo FV.C07.Refuted.
 Local Open Scope N_scope.
 
 (* obligations on the facts regenerated from /repo (Gen/C07.v) *)
@@ -56,7 +56,8 @@ Proof. intros; apply split_lines_spec; apply Nat.lt_succ_diag_r. Qed.
      error name, or the reply action REQUEST2REPLY gives for a (the identification reply for the identification
      request) with the specifier the handler's rule prescribes,
    - for an undecodable line: error_<f0> with specifier f1 and class InternalError, f0 f1 being the first fields of
-     the raw line read as latin-1 (this is where the findings C07_refuted_leading_blank / latin1_echo live) *)
+     the STRIPPED raw line read as latin-1 (since the repair b6f37c1; the open finding C07_refuted_latin1_echo lives
+     here, C07_decode_error_echo_partial is the positive statement) *)
 Theorem C07_one_reply_per_line : forall E st line,
   exists pre r c, answer E (nline st) line = (OReply pre r, c) /\
     output (process E st line) = output st ++ frames pre ++ [encode_frame r] /\
@@ -74,6 +75,18 @@ Qed.
 Theorem C07_decoded_request_fields : forall E line a s d,
   decode_msg E line = Some (a, s, d) -> request_fields line = Some (a, s).
 Proof. intros; eapply decode_msg_fields; eassumption. Qed.
+
+(* the error reply to an undecodable line names the action and echoes the specifier of the request - the fields
+   decode_msg would read - whatever white space surrounds the line (the exception for lines starting with white space is
+   gone with the repair b6f37c1).  Still partial: proved for lines that are ASCII after stripping, i.e. the decode error is
+   a JSON error; full statement: the same for every line whose action and specifier decode, which fails for non-ASCII
+   action/specifier (open finding latin1-echo, C07_refuted_latin1_echo); lines with ASCII action/specifier and invalid UTF-8
+   in the data part are covered by the direct oracle and the correspondence only *)
+Theorem C07_decode_error_echo_partial : forall E i line,
+  next_message E line = None -> ascii (bstrip line) = true ->
+  exists a s s' d, request_fields line = Some (a, s) /\
+    answer E i line = (OReply [] (ERRORPREFIX ++ a, s', d), None) /\ or_empty s' = or_empty s.
+Proof. intros; apply decode_error_echo; assumption. Qed.
 
 (* no input terminates the connection handler: after any history the loop is still running and the buffer
    holds no complete line *)
@@ -129,10 +142,10 @@ Print Assumptions C07_line_by_line.
 Print Assumptions C07_lines_of_spec.
 Print Assumptions C07_one_reply_per_line.
 Print Assumptions C07_decoded_request_fields.
+Print Assumptions C07_decode_error_echo_partial.
 Print Assumptions C07_never_terminates.
 Print Assumptions C07_isolation.
 Print Assumptions C07_codec_inverse.
 Print Assumptions C07_lines_wellformed.
-Print Assumptions C07_refuted_leading_blank.
 Print Assumptions C07_refuted_latin1_echo.
 Print Assumptions C07_refuted_ident_alias.
